@@ -1,7 +1,7 @@
 (* C08/Properties.v — property theorems only.  Each is closed by [exact lemma],
    pinned by [Check name : statement] and followed by [Print Assumptions]. *)
 From Coq Require Import Sorting.Sorted Sorting.Permutation.
-From RM Require Import C08.Model C08.Proofs.
+From RM Require Import C08.Model C08.Proofs C08.WinModel C08.WinProofs.
 Open Scope Z_scope.
 
 (* Building never fails: the final RangeMap::try_from_iter(vec).unwrap() discards
@@ -107,6 +107,48 @@ Theorem c08_unloaded_sorted : forall (ranges : list (option range)) x,
 Proof. exact unloaded_exact. Qed.
 Print Assumptions c08_unloaded_sorted.
 
+(* ---- STACK WIN frame-data / FPO tables: insert_win_stack_info for every record in file order, then the
+   parser-local builder.  Records are (u64 address, u32 size, everything else). ---- *)
+
+(* building never fails, in either build profile: not the address subtraction, not
+   last_info.memory_range().unwrap() after the repair, not the final try_from_iter(..).unwrap() *)
+Theorem c08_win_build_total : forall p (l : list winrec), wf_recs l ->
+  exists t, win_table p l = Ret t.
+Proof. exact win_table_total. Qed.
+Print Assumptions c08_win_build_total.
+
+Theorem c08_win_profile_independent : forall l : list winrec, wf_recs l ->
+  win_table Debug l = win_table Release l.
+Proof. exact win_table_profile. Qed.
+Print Assumptions c08_win_profile_independent.
+
+(* iteration by address is sorted and non-overlapping, and every entry is filed under the range of the record
+   it carries (the repair shortens the record and its range together) *)
+Theorem c08_win_sorted_disjoint : forall p (l : list winrec) t, wf_recs l -> win_table p l = Ret t ->
+  StronglySorted (fun a b => snd (fst a) < fst (fst b)) t /\ wf_ranges t /\
+  Forall (fun e => win_range (snd e) = Some (fst e)) t.
+Proof. exact win_sorted_disjoint. Qed.
+Print Assumptions c08_win_sorted_disjoint.
+
+(* a lookup returns a record whose own (possibly shortened) range contains the address; it is a record of the
+   file with the same address and other fields, never longer than written, and the range of the record as
+   written contains the address too *)
+Theorem c08_win_lookup_sound : forall p (l : list winrec) t x w, wf_recs l ->
+  win_table p l = Ret t -> rm_get t x = Some w ->
+  win_range w = Some (wa w, wa w + ws w - 1) /\ contains (wa w, wa w + ws w - 1) x = true /\
+  exists w0, In w0 l /\ wa w0 = wa w /\ wt w0 = wt w /\ 0 < ws w <= ws w0 /\
+             (exists r0, win_range w0 = Some r0 /\ contains r0 x = true).
+Proof. exact win_lookup_sound. Qed.
+Print Assumptions c08_win_lookup_sound.
+
+(* a record that intersects no other record of the list is returned, as written, for every address inside it *)
+Theorem c08_win_isolated_complete : forall p (la : list winrec) w lb r t x,
+  wf_recs (la ++ w :: lb) -> win_range w = Some r ->
+  (forall w' r', In w' (la ++ lb) -> win_range w' = Some r' -> intersects r r' = false) ->
+  win_table p (la ++ w :: lb) = Ret t -> contains r x = true -> rm_get t x = Some w.
+Proof. exact win_isolated_complete. Qed.
+Print Assumptions c08_win_isolated_complete.
+
 (* ---- non-vacuity: the hypotheses are met by concrete, non-trivial inputs ---- *)
 Example c08_nonvacuous_wf :
   wf_entries [(mk_range 18446744073709551610 6, 1); (mk_range 0 0, 2); (mk_range 5 10, 3);
@@ -127,4 +169,18 @@ Example c08_nonvacuous_isolated :
 Proof.
   split; [|vm_compute; reflexivity].
   intros r' v' [H|[H|[]]]; inversion H; reflexivity.
+Qed.
+
+(* the commented example of parser.rs (0+10, 1+9, 4+6 -> 0+1, 1+3, 4+6), a duplicate, a conflicting earlier start,
+   a zero size and a record reaching past the address space *)
+Example c08_nonvacuous_win :
+  let l := [mkW 0 10 1; mkW 1 9 2; mkW 4 6 3; mkW 4 6 3; mkW 2 20 4; mkW 50 0 5;
+            mkW 18446744073709551615 1 6; mkW 18446744073709551610 5 7] in
+  wf_recs l /\
+  win_table Debug l = Ret [((0, 0), mkW 0 1 1); ((1, 3), mkW 1 3 2); ((4, 9), mkW 4 6 3);
+                           ((18446744073709551610, 18446744073709551614), mkW 18446744073709551610 5 7)] /\
+  win_table Release l = win_table Debug l.
+Proof.
+  cbv zeta. split; [|split; vm_compute; reflexivity].
+  repeat constructor; cbn; try discriminate.
 Qed.
